@@ -153,12 +153,4 @@ theorem C12_decl_identity (fb : FactBase) (enums : List EnumInfo) (unions : List
     | (simp only [Outcome.ok.injEq] at h; subst h; exact ⟨rfl, rfl, rfl, rfl⟩)
     | simp at h
 
-/-- a named pointer type is the one declaration form on which the Go code dies with a runtime
-error (failed `.(AnonymousType)` assertion) instead of a diagnostic -/
-theorem declOf_named_pointer_crashes (fb : FactBase) (tf : TypeFact) (e : GoTy)
-    (h1 : tf.underStr ≠ timeString) (h2 : tf.under = .ptr e) :
-    (declOf fb [] [] tf).isCrash = true := by
-  unfold declOf
-  simp [h1, h2, Outcome.isCrash]
-
 end Gomacro.Analysis
